@@ -155,6 +155,9 @@ HL_OPS = {
     "poison": ("KILL", None),
 }
 ASSUME_OPS = {"guard": "W", "data_mut": "W", "read_guard": "R", "data_ref": "R"}
+RAW_HL = {"lock": ("ACQ", "W"), "try_lock": ("TRY", "W"), "unlock": ("REL", "W"),
+          "lock_exclusive": ("ACQ", "W"), "try_lock_exclusive": ("TRY", "W"), "unlock_exclusive": ("REL", "W"),
+          "lock_shared": ("ACQ", "R"), "try_lock_shared": ("TRY", "R"), "unlock_shared": ("REL", "R")}
 RAW_TRAITS = ("lock_api::RawMutex", "lock_api::RawRwLock", "lock_api::mutex::RawMutex", "lock_api::rwlock::RawRwLock")
 
 # std functions that cannot unwind (no user code, no allocation failure we model).
@@ -211,6 +214,7 @@ class Interp:
         self.lists = {}           # list id -> length (k-bounded list model, see listmodel.py)
         self.const_params = {}    # const generic name -> value (container model: `[T; N]` analysed with N = list length)
         self.acq_limit = None     # cut a path when it is about to issue more than this many blocking acquisitions
+        self.root_is_leaf_rawlock_impl = False
         self.frame_fn = {}        # frame id -> function (types of locals)
         self.frame_subst = {}     # frame id -> {(param name, index): type}: generic arguments the inlined callee was called with
         self.subst_table = [{}]   # interned substitutions carried by closure values (closure aggregate variant = index)
@@ -436,6 +440,34 @@ class Interp:
                 loc = self.add_proj(loc, p)
         return loc
 
+    def eval_promoted(self, st, fid, s):
+        """value of a promoted constant `<fn path>::promoted[i]`: its little MIR body is evaluated (straight-line code)"""
+        f = self.frame_fn.get(fid)
+        try:
+            idx = int(s.rsplit("[", 1)[1][:-1])
+        except ValueError:
+            return None
+        owner = f
+        # the operand may sit in a closure whose promoteds belong to the closure itself; look the path up if it differs
+        want = s.rsplit("::promoted[", 1)[0]
+        if owner is None or owner.get("path") != want:
+            cands = self.F.fn_by_path.get(want) or []
+            owner = cands[0] if cands else owner
+        proms = (owner or {}).get("promoted") or []
+        if idx >= len(proms):
+            return None
+        body = proms[idx]
+        pfn = {"path": want + "::promoted[%d]" % idx, "id": "promoted:%s:%d" % (want, idx), "mir": body, "kind": "Promoted",
+               "span": (owner or {}).get("span", {"file": None, "line": None})}
+        try:
+            outs = self.run_fn(pfn, [], st, 1, self.frame_subst.get(fid))
+        except Undecided:
+            return None
+        rets = [o for o in outs if o[0] == "ret"]
+        if len(rets) != 1 or rets[0][2] is not st:
+            return None
+        return rets[0][1]
+
     def _view_at(self, st, loc):
         v = st.heap.get(loc)
         if v is None and loc[0] == "L":
@@ -474,6 +506,10 @@ class Interp:
                     return Const(s)
             if t["k"] == "tuple" and not t["elems"]:
                 return UNIT
+            if "::promoted[" in s and s.endswith("]"):
+                v = self.eval_promoted(st, fid, s)
+                if v is not None:
+                    return v
             if t["k"] == "fndef":
                 return Const(("fn", t["def"], t.get("id"), t.get("ctor_adt"), t.get("ctor_variant"), t.get("trait"),
                               json.dumps([a for a in t.get("args", []) if a.get("k") not in ("region", "const")], sort_keys=True)))
@@ -717,6 +753,8 @@ class Interp:
         self.npaths = 0
         st = st or State()
         m = fn["mir"]
+        ti_ = fn.get("trait_item") or ""
+        self.root_is_leaf_rawlock_impl = ti_.startswith("lockable::RawLock::")
         if args is None:
             args = []
             for i in range(1, m["arg_count"] + 1):
@@ -1282,12 +1320,39 @@ class Interp:
             return self.call_value(st, args[0], self.untuple(st, args[1], n), fn, line, depth, dest_ty, may_unwind)
         if trait in RAW_TRAITS:
             recv = self.recv_of(st, args[0])
-            ev = self.emit(st, {"k": "RAW", "op": name, "recv": self.recv_name(recv), "trait": trait}, fn, line)
+            owner = self.leaf_owner(recv)
+            ev = self.emit(st, {"k": "RAW", "op": name, "recv": self.recv_name(recv), "trait": trait,
+                                "owner": self.recv_name(owner) if owner is not None else None}, fn, line)
+            hl = RAW_HL.get(name)
+            # The typestate follows the raw operation wherever it is written: when a function other than a leaf lock's own
+            # RawLock impl reaches a lock_api operation on the raw-lock field of a leaf lock (through private inherent
+            # helpers instead of the trait methods), it has the effect of the corresponding HL operation on that lock.
+            derive = hl is not None and owner is not None and not self.root_is_leaf_rawlock_impl
             rv = UNIT
             if name.startswith("try_"):
-                rv = self.fresh_op(st, "rawtry", dest_ty, tag=("rawtry", ev["i"]))
+                if derive:
+                    dev = self.emit(st, {"k": "TRY", "recv": self.recv_name(owner), "mode": hl[1], "impl": tdef, "derived": True}, fn, line)
+                    rv = self.fresh_op(st, "try", dest_ty, tag=("try", self.recv_name(owner), hl[1], dev["i"]))
+                    dev["result"] = rv[1]
+                else:
+                    rv = self.fresh_op(st, "rawtry", dest_ty, tag=("rawtry", ev["i"]))
                 ev["result"] = rv[1]
-            return self.outcomes(st, rv, may_unwind, "raw " + name, fn, line)
+                return self.outcomes(st, rv, may_unwind, "raw " + name, fn, line)
+            outs = self.outcomes(st, rv, may_unwind, "raw " + name, fn, line)
+            if derive:
+                orecv = self.recv_name(owner)
+                cur = st.locks.get(orecv, "U")
+                if hl[0] == "ACQ":
+                    dev = self.emit(st, {"k": "ACQ", "recv": orecv, "mode": hl[1], "impl": tdef, "derived": True}, fn, line)
+                    if cur in ("W", "R"):
+                        self.problem(st, "ACQ_WHILE_HELD", dev, have=cur)
+                    st.locks[orecv] = hl[1]
+                elif hl[0] == "REL":
+                    dev = self.emit(st, {"k": "REL", "recv": orecv, "mode": hl[1], "impl": tdef, "derived": True}, fn, line)
+                    if cur != hl[1]:
+                        self.problem(st, "REL_NOT_HELD", dev, have=cur)
+                    st.locks[orecv] = "U"
+            return outs
         if tdef in self.primitives:
             h = self.primitives[tdef]
             if h is not None:
@@ -1406,6 +1471,16 @@ class Interp:
                     return False
             t = self.proj_ty(t, p)
         return True
+
+    def leaf_owner(self, loc):
+        """the leaf lock object whose raw-lock field `loc` is (or None)"""
+        if loc is None or loc[0] != "O" or not loc[2] or not isinstance(loc[2][-1], int):
+            return None
+        owner = ("O", loc[1], loc[2][:-1])
+        t = self.loc_ty(owner)
+        if t is not None and t["k"] == "adt" and t["path"] in self.rawlock_adts():
+            return self.canon(owner)
+        return None
 
     def rawlock_adts(self):
         if not hasattr(self, "_rawlock_adts"):
@@ -1587,6 +1662,19 @@ def m_opt_filter(I, st, fn, ce, args, line, depth, dest_ty, may_unwind):
     return out
 
 
+def m_discriminant_value(I, st, fn, ce, args, line, depth, dest_ty, may_unwind):
+    v = args[0]
+    if v[0] == "ref":
+        v = I.load(st, v[1])
+    if v[0] == "agg":
+        return [("ret", Const(v[3] if isinstance(v[3], int) else 0), st)]
+    if v[0] == "op":
+        known = st.facts.get(v[1])
+        if isinstance(known, tuple) and known and known[0] == "variant" and isinstance(known[1], int):
+            return [("ret", Const(known[1]), st)]
+    return None
+
+
 def m_manually_drop_new(I, st, fn, ce, args, line, depth, dest_ty, may_unwind):
     # the wrapped value will never be dropped implicitly: for ownership purposes this is mem::forget that keeps the value readable
     I.emit(st, {"k": "FORGET", "val": args[0], "via": "ManuallyDrop::new"}, fn, line)
@@ -1654,6 +1742,55 @@ def m_deref_field0(I, st, fn, ce, args, line, depth, dest_ty, may_unwind):
     if loc is None:
         return [("ret", I.fresh_op(st, "deref", dest_ty), st)]
     return [("ret", Ref(I.add_proj(loc, 0)), st)]
+
+
+def _flag_recv(I, st, a):
+    """receiver name of an atomic flag operation: the flag object (the local ADT wrapping the AtomicBool) if there is one"""
+    loc = I.recv_of(st, a)
+    if loc is not None and loc[0] == "O" and loc[2] and isinstance(loc[2][-1], int):
+        owner = ("O", loc[1], loc[2][:-1])
+        t = I.loc_ty(owner)
+        if t is not None and t["k"] == "adt" and t["path"] in I.F.adts and len(I.F.adts[t["path"]]["variants"][0]["fields"]) == 1:
+            return I.recv_name(owner)
+    return I.recv_name(loc)
+
+
+def m_atomic_load(I, st, fn, ce, args, line, depth, dest_ty, may_unwind):
+    recv = _flag_recv(I, st, args[0])
+    ev = I.emit(st, {"k": "FLAG_READ", "recv": recv}, fn, line)
+    rv = I.fresh_op(st, "flag", dest_ty, tag=("flag", recv, ev["i"]))
+    ev["result"] = rv[1]
+    return [("ret", rv, st)]
+
+
+def m_atomic_write(kind):
+    """store / swap / fetch_or / fetch_and of an AtomicBool with a literal operand"""
+    def f(I, st, fn, ce, args, line, depth, dest_ty, may_unwind):
+        recv = _flag_recv(I, st, args[0])
+        v = args[1]
+        if not (v[0] == "const" and isinstance(v[1], bool)):
+            rb = I.resolve_bool(st, v) if v[0] == "op" else None
+            known = st.facts.get(rb[0][1]) if rb else None
+            if isinstance(known, bool):
+                v = Const(known if rb[1] else not known)
+            else:
+                I.emit(st, {"k": "FLAG_WRITE_UNKNOWN", "recv": recv, "val": v}, fn, line)
+                raise Undecided("atomic flag written with a value that is not a literal")
+        val = v[1]
+        eff = None
+        if kind in ("store", "swap"):
+            eff = "FLAG_SET" if val else "FLAG_CLEAR"
+        elif kind == "fetch_or" and val:
+            eff = "FLAG_SET"
+        elif kind == "fetch_and" and not val:
+            eff = "FLAG_CLEAR"
+        if eff:
+            I.emit(st, {"k": eff, "recv": recv, "via": kind}, fn, line)
+        if kind == "store":
+            return [("ret", UNIT, st)]
+        # the previous value handed back by the read-modify-write (no FLAG_READ event: it is not a test of the flag)
+        return [("ret", I.fresh_op(st, "flagold", dest_ty), st)]
+    return f
 
 
 def m_lazy_deref(I, st, fn, ce, args, line, depth, dest_ty, may_unwind):
@@ -1803,6 +1940,16 @@ MODELS = {
     "<std::vec::Vec<T, A> as std::ops::DerefMut>::deref_mut": m_identity,
     "<std::panic::AssertUnwindSafe<T> as std::ops::Deref>::deref": m_deref_field0,
     "std::thread::LocalKey::<T>::with": m_local_key_with,
+    "std::sync::atomic::AtomicBool::load": m_atomic_load,
+    "std::sync::atomic::AtomicBool::store": m_atomic_write("store"),
+    "std::sync::atomic::AtomicBool::swap": m_atomic_write("swap"),
+    "std::sync::atomic::AtomicBool::fetch_or": m_atomic_write("fetch_or"),
+    "std::sync::atomic::AtomicBool::fetch_and": m_atomic_write("fetch_and"),
+    "std::sync::atomic::Atomic::<bool>::load": m_atomic_load,
+    "std::sync::atomic::Atomic::<bool>::store": m_atomic_write("store"),
+    "std::sync::atomic::Atomic::<bool>::swap": m_atomic_write("swap"),
+    "std::sync::atomic::Atomic::<bool>::fetch_or": m_atomic_write("fetch_or"),
+    "std::sync::atomic::Atomic::<bool>::fetch_and": m_atomic_write("fetch_and"),
     "<std::cell::LazyCell<T, F> as std::ops::Deref>::deref": m_lazy_deref,
     "std::cell::LazyCell::<T, F>::force": m_lazy_deref,
     "<std::sync::LazyLock<T, F> as std::ops::Deref>::deref": m_lazy_deref,
@@ -1824,6 +1971,8 @@ MODELS = {
     "std::option::Option::<T>::map": m_map_variant(1, True),
     "std::result::Result::<T, E>::map": m_map_variant(0, False),
     "std::result::Result::<T, E>::map_err": m_map_variant(1, False),
+    "std::intrinsics::discriminant_value": m_discriminant_value,
+    "std::mem::discriminant": m_discriminant_value,
     "std::option::Option::<T>::filter": m_opt_filter,
     "std::option::Option::<T>::ok_or": m_ok_or(False),
     "std::option::Option::<T>::ok_or_else": m_ok_or(True),
